@@ -40,6 +40,8 @@ func Main(args []string) int {
 		return mainReplay(args[1:])
 	case "free":
 		return mainFree(args[1:])
+	case "probe-hostcheck":
+		return mainProbe(args[1:])
 	}
 	fmt.Fprintln(os.Stderr, "unknown mode", args[0])
 	return 2
@@ -110,7 +112,20 @@ func mainReplay(args []string) int {
 // replayScript runs one script in a fresh environment. It returns the number of steps executed, whether the
 // script ran to its end, and whether the environment could be torn down.
 func replayScript(fx *fixtures, sc Script, w *vcommon.Writer, stepTO, hangTO time.Duration, final bool) (int, bool, bool) {
-	e, err := newEnv(fx, sc.ID, pmanifest.ServiceConfig{})
+	// odd scripts run with the manifest watchdog configured (it never fires: one hour), which adds the watchdog
+	// bookkeeping of service.go to every schedule, including the drain at shutdown
+	cfg := pmanifest.ServiceConfig{}
+	if sc.ID%2 == 1 {
+		cfg.ManifestTimeout = time.Hour
+	}
+	var pre []int
+	for _, s := range sc.Steps {
+		if s.Name != "PreLease" {
+			break
+		}
+		pre = append(pre, s.Arg)
+	}
+	e, err := newEnv(fx, sc.ID, cfg, pre...)
 	if err != nil {
 		_ = w.Write(Rec{E: "reset", Script: sc.ID, St: emptyState("run"), Timeout: "setup: " + err.Error()})
 		return 0, false, true
